@@ -130,7 +130,15 @@ func Clamp01(y *big.Float) *big.Float {
 
 // lsum is 1+|ln|x||+|ln|Min||+|ln|Max||.
 func (s *ScaleRef) lsum(x float64) float64 {
-	return 1 + math.Abs(math.Log(math.Abs(x))) + math.Abs(s.LMin) + math.Abs(s.LMax)
+	return 1 + math.Abs(LnF(math.Abs(x))) + math.Abs(s.LMin) + math.Abs(s.LMax)
+}
+
+// LnF is ln x in double precision, also for subnormal x (the platform
+// logarithm may be inaccurate there: amd64's math.Log returns about -709.09
+// for every subnormal argument instead of down to -744.44).
+func LnF(x float64) float64 {
+	f, e := math.Frexp(x)
+	return math.Log(f) + float64(e)*math.Ln2
 }
 
 // UnmapTol is the absolute tolerance on Unmap(y) whose true value is x.
@@ -147,13 +155,38 @@ func (s *ScaleRef) UnmapTol(y, x float64) float64 {
 		m := math.Max(math.Abs(s.Min), math.Abs(s.Max))
 		return 8 * Eps * (math.Abs(x) + (1+math.Abs(y))*m)
 	}
-	return 8 * Eps * (1 + math.Abs(y)) * s.lsum(x) * math.Abs(x)
+	// plus one unit of the subnormal grid: a relative bound means nothing for
+	// a result below the smallest normal number
+	return 8*Eps*(1+math.Abs(y))*s.lsum(x)*math.Abs(x) + 2*math.SmallestNonzeroFloat64
 }
 
 // MapTol is the absolute tolerance on Map(x) whose true value is y: the
 // Unmap tolerance carried back through the slope of the map, plus 4 eps |y|.
+//
+// Log: 8 eps (1+|y|)(1+|ln|x||+|ln|Min||+|ln|Max||)/|W| + 4 eps |y|, written
+// without the factor |x|/|x| so that it stays finite and non-zero for x near
+// the largest finite and down to the subnormal numbers.
 func (s *ScaleRef) MapTol(x, y float64) float64 {
+	if s.IsLog {
+		return 8*Eps*(1+math.Abs(y))*s.lsum(x)/math.Abs(s.W) + 4*Eps*math.Abs(y)
+	}
 	return s.UnmapTol(y, x)*s.DMap(x) + 4*Eps*math.Abs(y)
+}
+
+// Separated says that the logarithms of |Min| and |Max| are at least 3 ulps
+// apart, in whatever base they are taken: ln|Max|-ln|Min| >= 3 eps max(|ln|Min||,
+// |ln|Max||) (a change of base divides both sides by the same constant). Any
+// implementation whose logarithm errs by less than one ulp then sees two
+// different values f(Min) != f(Max), and (f(x)-f(Min))/(f(Max)-f(Min)) is
+// exactly 0 at Min and exactly 1 at Max, also inside the unresolvable
+// window. Below that separation an implementation may be unable to tell the
+// domain from a degenerate one (the logarithms can coincide: in base e for
+// one, in base 5 for another).
+func (s *ScaleRef) Separated() bool {
+	if !s.IsLog {
+		return s.Min != s.Max
+	}
+	return math.Abs(s.W) >= 3*Eps*math.Max(math.Abs(s.LMin), math.Abs(s.LMax))
 }
 
 // DMap is |dy/dx| at x.
@@ -226,15 +259,27 @@ func C16SelfTest() error {
 			return fmt.Errorf("ScaleRef{log=%v,%v,%v}.Unmap(%v)=%v, want %v", c.s.IsLog, c.s.Min, c.s.Max, c.y, back, c.x)
 		}
 	}
-	for _, x := range []float64{1e-14, 0.3, 1, 2, 10, 12345.678, 1e14} {
+	for _, x := range []float64{math.SmallestNonzeroFloat64, 3e-320, 2.2250738585072014e-308, 1e-300, 1e-14, 0.3, 1, 2, 10, 12345.678, 1e14, 1e300, math.MaxFloat64} {
 		l := Log(NF(x))
-		if math.Abs(F64(l)-math.Log(x)) > 4*Eps*(1+math.Abs(math.Log(x))) {
-			return fmt.Errorf("ref.Log(%v)=%v, math.Log %v", x, F64(l), math.Log(x))
+		if math.Abs(F64(l)-LnF(x)) > 4*Eps*(1+math.Abs(LnF(x))) {
+			return fmt.Errorf("ref.Log(%v)=%v, double precision %v", x, F64(l), LnF(x))
 		}
 		d := Sub(Exp(l), NF(x))
 		if math.Abs(F64(d)) > 1e-90*x {
 			return fmt.Errorf("ref.Exp(ref.Log(%v)) off by %v", x, F64(d))
 		}
+	}
+	// far from the domain: 1e300 is 25 widths above the top of [1e-12,1],
+	// the subnormal 2^-1074 is (1074 ln2 + 6 ln10)/(6 ln10) widths below [1e6,1e12]
+	if !near(mk(true, 1e-12, 1).MapBig(1e300), 26, 1e-12) ||
+		!near(mk(true, 1e6, 1e12).MapBig(math.SmallestNonzeroFloat64), -(1074*math.Ln2+6*math.Ln10)/(6*math.Ln10), 1e-12) {
+		return fmt.Errorf("ScaleRef.MapBig wrong far from the domain")
+	}
+	if t := mk(true, 1e-12, 1).MapTol(1e300, 26); !(t > 0 && t < 1e-10) {
+		return fmt.Errorf("MapTol at 1e300 = %v", t)
+	}
+	if t := mk(true, 1e6, 1e12).MapTol(math.SmallestNonzeroFloat64, -52.9); !(t > 0 && t < 1e-10) {
+		return fmt.Errorf("MapTol at the smallest subnormal = %v", t)
 	}
 	if !mk(true, 1e12, math.Nextafter(1e12, 2e12)).Unresolvable() || mk(true, 1, 1.0000001).Unresolvable() || mk(true, 1e-12, 1e12).Unresolvable() {
 		return fmt.Errorf("Unresolvable() misclassifies")
